@@ -76,14 +76,36 @@ func RunRaw(chunks []Chunk, o Opts) (obs []Obs, failed string) {
 // the test driver mixes the wall clock into its first time stamp.
 const SyncByte = 0xFA
 
+// Loop is one testdrv in/out pair that can be listened to several times in a row.
+type Loop struct {
+	drv *testdrv.Driver
+	in  drivers.In
+	out drivers.Out
+}
+
+// NewLoop creates a fresh test driver pair.
+func NewLoop() *Loop {
+	drv := testdrv.New("verif")
+	ins, _ := drv.Ins()
+	outs, _ := drv.Outs()
+	return &Loop{drv: drv, in: ins[0], out: outs[0]}
+}
+
 // RunListen sends the chunks through a fresh testdrv loopback into midi.ListenTo.
 // The returned time stamps are relative to the sync message (which is not returned).
 func RunListen(chunks []Chunk, o Opts) (obs []Obs, failed string) {
+	var l *Loop
+	if failed = ev.Try(func() { l = NewLoop() }); failed != "" {
+		return nil, failed
+	}
+	return l.Run(chunks, o)
+}
+
+// Run listens with the given options, sends the sync message and the chunks, and stops the
+// listening again. It may be called repeatedly on the same Loop (listen - stop - listen ...).
+func (l *Loop) Run(chunks []Chunk, o Opts) (obs []Obs, failed string) {
 	failed = ev.Try(func() {
-		drv := testdrv.New("verif")
-		ins, _ := drv.Ins()
-		outs, _ := drv.Outs()
-		in, out := ins[0], outs[0]
+		drv, in, out := l.drv, l.in, l.out
 		var opts []midi.Option
 		if o.ActiveSense {
 			opts = append(opts, midi.UseActiveSense())
@@ -98,13 +120,17 @@ func RunListen(chunks []Chunk, o Opts) (obs []Obs, failed string) {
 			opts = append(opts, midi.SysExBufferSize(o.BufSize))
 		}
 		var all []Obs
+		stopped := false
 		stop, err := midi.ListenTo(in, func(m midi.Message, ts int32) {
+			if stopped {
+				panic(fmt.Sprintf("listener called after its stop function returned (% X)", []byte(m)))
+			}
 			all = append(all, Obs{append([]byte{}, m...), ts})
 		}, opts...)
 		if err != nil {
 			panic(fmt.Sprintf("ListenTo: %v", err))
 		}
-		defer stop()
+		defer func() { stop(); stopped = true }()
 		if err := out.Open(); err != nil {
 			panic(err)
 		}
